@@ -25,10 +25,23 @@ HASHSEEDS = {'quick': 1, 'thorough': 1}
 # ------------------------------------------------------------------------------------------------
 # fixed alphabet of blob identities
 
+_STREAM_INFO = None
 NPLAIN = 3
-PLAIN = [b'plain blob %d ' % i + bytes([65 + i]) * (5 + i) for i in range(NPLAIN)]
-PLAIN_HASH = [hashlib.sha384(b).hexdigest() for b in PLAIN]
-STREAM_KEY = bytes(range(16))
+SEED = 0
+PLAIN = PLAIN_HASH = STREAM_KEY = None
+
+
+def configure(seed):
+    """VERIF_SEED only renames the blobs (other contents -> other hashes -> other directory / set orders);
+    it never changes which histories are explored."""
+    global SEED, PLAIN, PLAIN_HASH, STREAM_KEY, _STREAM_INFO
+    SEED = int(seed)
+    PLAIN = [b'plain blob %d/%d ' % (i, SEED) + bytes([65 + i]) * (5 + i) for i in range(NPLAIN)]
+    PLAIN_HASH = [hashlib.sha384(b).hexdigest() for b in PLAIN]
+    STREAM_KEY = bytes((SEED + i) % 256 for i in range(16))
+    _STREAM_INFO = None
+
+
 STREAM_FILE_LEN = 40            # with MAX_BLOB_SIZE scaled to 32: two content blobs + terminator + sd blob
 SCALED_MAX_BLOB_SIZE = 32
 
@@ -71,7 +84,6 @@ def iv_gen():
 
 
 _PATCHED = False
-_ORIG = {}
 
 
 def patch_lbry():
@@ -90,7 +102,6 @@ def patch_lbry():
 
     class _T:
         time = staticmethod(ft.time)
-    _ORIG['time'] = (blob_file.time, descriptor.time)
     blob_file.time = _T
     descriptor.time = _T
     _PATCHED = True
@@ -124,10 +135,6 @@ def loop_class():
                 super().shutdown()
         _LOOP_CLASS = QuietCorpseLoop
     return _LOOP_CLASS
-
-
-class Crashed(Exception):
-    pass
 
 
 # ------------------------------------------------------------------------------------------------
@@ -264,6 +271,7 @@ class World:
         loop = self.loop
         task = loop.create_task(coro_or_none) if coro_or_none is not None else None
         trace = []
+        self.last_labels = []
         i = 0
         while True:
             loop.drain()
@@ -279,6 +287,7 @@ class World:
                 return trace, True, None
             else:
                 j = rj[0]
+            self.last_labels.append(job_label(j))
             loop.job_run(j)
             self.jobs_run += 1
             i += 1
@@ -302,10 +311,10 @@ class World:
         kind = op[0]
         bm = self.bm
         if kind == 'complete':
-            i = op[1]
-            data = PLAIN[i]
+            h = self.hashes()[op[1]]
+            data = content_of(h)
             try:
-                blob = bm.get_blob(PLAIN_HASH[i], len(data))
+                blob = bm.get_blob(h, len(data))
                 if blob.get_is_verified() or not blob.is_writeable():
                     return None, 'skipped-have-it'        # what BlobExchangeClientProtocol.download_blob does
                 w = blob.get_blob_writer('10.0.0.1', 3333)
@@ -357,18 +366,6 @@ class World:
         await self.bm.delete_blobs(blob_hashes, delete_from_db=False)
         await self.st.delete_stream(descriptor)
 
-    def enabled(self, op):
-        """Environment actions that are impossible in the current directory are not offered (removing a file
-        that is not there, creating one that is).  API calls are always offered."""
-        names = {n for n, _ in self.files()}
-        if op[0] == 'unlink':
-            return self.hashes()[op[1]] in names
-        if op[0] == 'drop':
-            return self.hashes()[op[1]] not in names
-        if op[0] == 'wrong':
-            return WRONG_NAMES[0] not in names
-        return True
-
     def step(self, step):
         """One history step: (op, choices, crash).  op ('restart',) = clean stop + start; ('kill',) = process
         death at quiescence + start.  A crash inside an operation is followed by a start."""
@@ -390,11 +387,27 @@ class World:
         return trace, crashed, outcome or note
 
 
+def job_label(j):
+    """('f', name) for a default-executor (file) job, ('d', name of the transaction function) for a job of the
+    storage's single writer thread."""
+    f = j.func
+    if j.executor is None:
+        return ('f', getattr(f, '__qualname__', repr(type(f))))
+    name = getattr(f, '__qualname__', '?')
+    for cell in (getattr(f, '__closure__', None) or ()):
+        try:
+            v = cell.cell_contents
+        except ValueError:
+            continue
+        if callable(v) and hasattr(v, '__qualname__') and not isinstance(v, type) and 'AIOSQLite' not in v.__qualname__:
+            name = v.__qualname__
+    if j.args and callable(j.args[0]) and hasattr(j.args[0], '__qualname__'):
+        name = j.args[0].__qualname__
+    return ('d', name)
+
+
 def short(h):
     return h[:6] if isinstance(h, str) else h
-
-
-_STREAM_INFO = None
 
 
 def stream_info():
@@ -428,6 +441,9 @@ def stream_info():
         finally:
             shutil.rmtree(d, ignore_errors=True)
     return _STREAM_INFO
+
+
+configure(0)
 
 
 def content_of(h):
@@ -557,7 +573,7 @@ def drop_scratch():
 class Execution:
     """Result of playing a history (list of steps) and, optionally, the invariant extension."""
     __slots__ = ('canon', 'last_trace', 'last_crashed', 'last_outcome', 'findings', 'log', 'setups', 'jobs',
-                 'facts', 'extended')
+                 'facts', 'extended', 'last_labels')
 
 
 def play(history, extend=True, judge_from=None):
@@ -571,6 +587,7 @@ def play(history, extend=True, judge_from=None):
     ex.findings = []
     ex.facts = []
     ex.last_trace, ex.last_crashed, ex.last_outcome = [], False, None
+    ex.last_labels = []
     if judge_from is None:
         judge_from = max(0, len(history) - 1)
     try:
@@ -583,6 +600,7 @@ def play(history, extend=True, judge_from=None):
             completed_before = set(w.bm.completed_blob_hashes)
             tr, crashed, outcome = w.step(st)
             ex.last_trace, ex.last_crashed, ex.last_outcome = tr, crashed, outcome
+            ex.last_labels = list(getattr(w, 'last_labels', []))
             actual.append((st[0], st[1], crashed))
             did_setup = w.setups > n_setups
             if did_setup:
@@ -661,7 +679,7 @@ def hash_indexes(cfg):
 
 def base_ops(cfg):
     hs = hash_indexes(cfg)
-    ops = [('complete', i) for i in range(cfg['nplain'])]
+    ops = [('complete', i) for i in (hs if cfg.get('complete_stream_blobs') else range(cfg['nplain']))]
     ops += [('publish',)]
     ops += [('delete', h, f) for h in hs for f in (1, 0)]
     ops += [('delstream',)]
@@ -695,8 +713,13 @@ def _need_extension(canon):
 
 
 def successors(history, names, cfg):
-    """Every step enabled after `history`: every operation x every schedule of its executor jobs x a process
-    death at every job boundary.  Yields (step, Execution)."""
+    """Every step enabled after `history`: every operation x every order of its executor jobs x a process
+    death at every job boundary.  Yields (step, Execution).
+
+    Complete runs: every order (DFS over the alternatives at every boundary with more than one runnable job).
+    Process deaths: at every boundary of every complete run; with cfg['por'] two deaths are the same crash point
+    when the same jobs ran before them (same labels in the same per-executor order) - a file job and a DB
+    transaction touch disjoint persistent resources, and nothing but the directory survives a death."""
     history = list(history)
     for op in base_ops(cfg):
         if not op_enabled(op, names):
@@ -704,15 +727,27 @@ def successors(history, names, cfg):
         if op[0] in ('restart', 'kill'):
             yield (op, (), op[0] == 'kill'), play(history + [(op, (), False)], extend=_need_extension)
             continue
+        points = set()
         stack = [()]
         while stack:
             p = stack.pop()
-            ex = play(history + [(op, p, True)], extend=_need_extension)
-            if ex.last_crashed:
-                yield (op, p, True), ex
-                stack.extend(p + (c,) for c in reversed(range(ex.last_trace[-1])))
-            else:
-                yield (op, p, False), ex
+            ex = play(history + [(op, p, False)], extend=_need_extension)
+            trace, labels = ex.last_trace, ex.last_labels
+            chosen = tuple(p) + (0,) * (len(trace) - len(p))
+            yield (op, tuple(p), False), ex
+            alts = []
+            for i in range(len(trace)):
+                if cfg.get('por'):
+                    ran = labels[:i]
+                    point = (tuple(x for x in ran if x[0] == 'f'), tuple(x for x in ran if x[0] != 'f'))
+                else:
+                    point = chosen[:i]
+                if point not in points:
+                    points.add(point)
+                    yield (op, chosen[:i], True), play(history + [(op, chosen[:i], True)], extend=_need_extension)
+                if i >= len(p):
+                    alts.extend(chosen[:i] + (alt,) for alt in range(1, trace[i]))
+            stack.extend(reversed(alts))
 
 
 def digest16(canon):
@@ -758,7 +793,7 @@ def expand(item, res):
         if ex.findings:
             for sig, what in ex.findings:
                 res.violation(sig, f'{what}  [history: {fmt_history(full)} + restart, restart]',
-                              {'history': full, 'cfg': cfg})
+                              {'history': full, 'seed': SEED})
             determinism_check(full, ex, res)
             continue
         res.distinct_add('states', ex.canon)
@@ -769,9 +804,6 @@ def expand(item, res):
     for pair in (first, last):
         if pair is not None:
             determinism_check(pair[0], pair[1], res)
-    if len(history) <= 1 or len(history) >= cfg['depth'] - 1:
-        if last is not None:
-            res.sample({'history': fmt_history(last[0]), 'log_tail': [repr(x) for x in last[1].log[-2:]]})
     with open(out_path, 'wb') as f:
         pickle.dump(out, f)
     drop_scratch()
@@ -820,43 +852,33 @@ def side_sweep(item, res):
                 for sig, what in judge_setup(first, None, {'after': 'single-wrong-name', 'how': 'ran'}) + \
                         judge_setup(w.last_setup, first, {'after': 'single-wrong-name', 'how': 'ran'}):
                     res.violation(sig, what + f' [single wrongly named file {name[:10]!r} len {len(name)}]',
-                                  {'wrong_name': name, 'populated': populated})
+                                  {'wrong_name': name, 'populated': populated, 'seed': SEED})
             finally:
                 w.destroy()
     drop_scratch()
 
 
-def run(ctx):
+def explore(ctx, cfg, seen, t0, budget):
+    """Level-synchronous BFS for one alphabet configuration.  Returns (completed_depth, level_stats, exhausted)."""
     import pickle
+    import time
     from vf.bootstrap import scratch_dir
-    if ctx.quick:
-        cfg = {'nplain': 2, 'depth': 4, 'drop_empty': [0]}
-    else:
-        cfg = {'nplain': 3, 'depth': 6, 'drop_empty': [0, NPLAIN + 1]}
-    cfg['depth'] = int(os.environ.get('C18_DEPTH', cfg['depth']))
-    stream_info()
-    ex0 = play([], extend=True)
-    for sig, what in ex0.findings:
-        ctx.res.violation(sig, what + ' [empty history]', {'history': [], 'cfg': cfg})
-    seen = {digest16(ex0.canon)}
-    ctx.res.distinct_add('states', ex0.canon)
     frontier = [([], [])]
     level_dir = scratch_dir('c18lvl')
     completed_depth = 0
-    import time
-    t0 = time.time()
-    budget = float(os.environ.get('C18_BUDGET', 45 if ctx.quick else 780))
     level_stats = []
     try:
         for depth in range(1, cfg['depth'] + 1):
             items = [(os.path.join(level_dir, f'{depth}.{i}.pkl'), h, names, cfg)
                      for i, (h, names) in enumerate(frontier)]
-            # a level is started only if the measured cost of the previous one says it fits the budget
-            if level_stats:
+            # safety net only: a level is not started if the measured cost of the previous one says it cannot
+            # fit the wall-clock budget (reported as a cap; the bounds are chosen so that this does not happen
+            # on an idle 16-core machine)
+            if level_stats and level_stats[-1][0] >= 500 and budget:
                 per_state = level_stats[-1][2] / max(1, level_stats[-1][0])
-                if (time.time() - t0) + per_state * len(items) * 1.15 > budget:
+                if (time.time() - t0) + per_state * len(items) * 1.1 > budget:
                     ctx.res.count('capped')
-                    ctx.res.tally(f'level_{depth}_not_started_budget', 1)
+                    ctx.res.tally(f"nplain{cfg['nplain']}_level_{depth}_not_started_wall_budget")
                     break
             t1 = time.time()
             ctx.pmap(expand, items)
@@ -874,46 +896,93 @@ def run(ctx):
                         nxt.append((it[1] + [step], files))
             level_stats.append((len(items), len(nxt), time.time() - t1))
             completed_depth = depth
-            ctx.res.setmax('depth_completed', depth)
-            ctx.res.setmax(f'new_states_at_depth_{depth}', len(nxt))
+            if depth == 1 or depth == cfg['depth']:
+                # written-out traces: the three shortest and the three longest histories that reached a new state
+                for h, _ in (nxt[:3] if depth == 1 else nxt[-3:]):
+                    ctx.res.sample({'plain_blobs': cfg['nplain'], 'history': fmt_history(h) + ' + restart, restart',
+                                    'verdict': 'all claims hold after every setup()'}, force=True)
             frontier = nxt
             if not frontier:
                 break
     finally:
         shutil.rmtree(level_dir, ignore_errors=True)
+    return completed_depth, level_stats, not frontier
+
+
+def phases(tier):
+    if tier == 'quick':
+        return [{'nplain': 1, 'depth': 4, 'drop_empty': [0], 'por': True, 'complete_stream_blobs': False},
+                {'nplain': 2, 'depth': 3, 'drop_empty': [0], 'por': True, 'complete_stream_blobs': True}]
+    return [{'nplain': 3, 'depth': 4, 'drop_empty': [0, NPLAIN + 1], 'por': True, 'complete_stream_blobs': True},
+            {'nplain': 1, 'depth': 6, 'drop_empty': [0, NPLAIN + 1], 'por': True, 'complete_stream_blobs': False}]
+
+
+def run(ctx):
+    import time
+    configure(ctx.seed)
+    plan = phases(ctx.tier)
+    if os.environ.get('C18_PHASES'):          # development aid: "nplain:depth,nplain:depth"
+        plan = [dict(plan[0], nplain=int(a), depth=int(b)) for a, b in
+                (x.split(':') for x in os.environ['C18_PHASES'].split(','))]
+    stream_info()
+    t0 = time.time()
+    budget = float(os.environ.get('C18_BUDGET', 0 if ctx.quick else 840))      # 0 = no wall-clock guard
+    ex0 = play([], extend=True)
+    for sig, what in ex0.findings:
+        ctx.res.violation(sig, what + ' [empty history]', {'history': [], 'seed': SEED})
+    ctx.res.distinct_add('states', ex0.canon)
+    done = []
+    all_complete = True
+    for cfg in plan:
+        seen = {digest16(ex0.canon)}
+        depth, stats, exhausted = explore(ctx, cfg, seen, t0, budget)
+        done.append({'plain_blobs': cfg['nplain'], 'depth_bound': cfg['depth'], 'depth_completed': depth,
+                     'state_space_exhausted_before_bound': exhausted,
+                     'levels': [{'depth': i + 1, 'expanded': a, 'new_states': b, 'wall_s': round(c, 1)}
+                                for i, (a, b, c) in enumerate(stats)]})
+        ctx.res.setmax(f"depth_completed_with_{cfg['nplain']}_plain_blobs", depth)
+        if depth < cfg['depth'] and not exhausted:
+            all_complete = False
     ctx.pmap(side_sweep, [0])
     drop_scratch()
-    ctx.res.setmax('distinct_states_parent', len(seen))
     ctx.meta.update(
-        rule=('explicit-state BFS over histories of steps; a step = one operation from {complete plain blob i via '
-              'the writer path, publish the 2-content-blob stream (create_stream with blob_completed callback, '
+        rule=('explicit-state BFS over histories of steps; a step = one operation from {complete blob h via the '
+              'writer path, publish the 2-content-blob stream (create_stream with blob_completed callback, '
               'store_stream, save_published_file), delete_blobs([h], delete_from_db in {T,F}) for every blob '
-              'identity, StreamManager.delete call sequence, unlink file h behind the back, drop a correctly named '
-              'file h (full / zero length) behind the back, add wrongly named files, clean restart, kill at '
+              'identity, the StreamManager.delete call sequence, unlink file h behind the back, drop a correctly '
+              'named file h (full / zero length) behind the back, add wrongly named files, clean restart, kill at '
               'quiescence} x every order of its executor jobs x a process death at every job boundary (followed '
               'by a start). Every transition is executed on fresh real objects; the statement is judged on every '
-              'setup() of the last step and on the extension restart, restart. States are merged on the live '
-              'canonical state. distinct_nontrivial = distinct canonical states reached by a step other than a '
-              'plain restart.'),
-        exhaustive=(completed_depth == cfg['depth']) or not frontier,
-        bounds={'plain_blobs': cfg['nplain'], 'stream_blobs': 3, 'history_depth': cfg['depth'],
-                'zero_length_drop_for': cfg['drop_empty'], 'scaled_MAX_BLOB_SIZE_in_descriptor': SCALED_MAX_BLOB_SIZE},
-        bound_completed={'history_depth': completed_depth, 'levels': [
-            {'depth': i + 1, 'expanded': a, 'new_states': b, 'wall_s': round(c, 1)}
-            for i, (a, b, c) in enumerate(level_stats)]},
+              'setup() of the last step and on the extension restart, restart (skipped when the same live state '
+              'was judged before). States are merged on the live canonical state (directory with sizes, blob/'
+              'stream/file rows, completed set, flags of the manager\'s blob objects). distinct_nontrivial = '
+              'distinct canonical states reached by a step other than a plain restart. One BFS per alphabet '
+              'configuration listed in bounds.'),
+        exhaustive=all_complete,
+        bounds={'configurations': [{k: c[k] for k in ('nplain', 'depth', 'drop_empty', 'complete_stream_blobs')}
+                                   for c in plan],
+                'stream_blobs': 3, 'scaled_MAX_BLOB_SIZE_in_descriptor': SCALED_MAX_BLOB_SIZE,
+                'crash_points': 'every executor-job boundary of every job order (partial-order reduced)'},
+        bound_completed=done,
         assumptions=[
             'executor job bodies (one file read/write, one sqlite transaction) are atomic; a process death happens '
             'at a job boundary; jobs start only when the ready queue has drained',
             "sqlite's own crash consistency is trusted: a committed transaction survives, dropping the connection "
             'at a job boundary equals a killed process',
+            'partial-order reduction of crash points: two deaths after the same jobs (same per-executor order) '
+            'are one crash point - file jobs and DB transactions touch disjoint persistent resources and only '
+            'the directory survives a death; all complete job orders are still executed',
             'a torn blob file write is represented by the zero-length / full drop-behind-the-back operations '
             '(the statement speaks about file presence, not content)',
             'operations of one history do not overlap (each runs to quiescence or to the crash)',
             'MAX_BLOB_SIZE is scaled to 32 inside lbry.stream.descriptor only (the publisher reads it through '
             'min() only); ReaderExecutorClass is the thread pool class lbry uses on Windows/Android',
+            'names that HEXMATCH accepts but that are not 96 hex digits (comma, trailing newline) are outside the '
+            'statement: observed in a side sweep and tallied only',
         ],
         expected_witnesses=['crash_between_file_write_and_db_write', 'crash_between_file_removal_and_db_delete',
                             'finished_row_downgraded_to_pending', 'unrecorded_file_recorded_by_setup',
+                            'pending_row_upgraded_to_finished_by_setup',
                             'boundary_with_two_runnable_jobs', 'setup_with_wrongly_named_files_present',
                             'crash_inside_publish_between_file_write_and_db_write'],
     )
@@ -922,12 +991,14 @@ def run(ctx):
 def replay(data):
     lines = []
     if 'wrong_name' in data:
+        configure(data.get('seed', 0))
         from vf.core import Result
         res = Result()
         side_sweep(0, res)
         for v in res.violations.values():
             lines.append(v['what'])
         return bool(res.violations), '\n'.join(lines)
+    configure(data.get('seed', 0))
     history = [(tuple(o), tuple(c), bool(k)) for o, c, k in data['history']]
     ex = play(history, extend=True, judge_from=0)
     lines.append('history: ' + fmt_history(history) + ' + restart, restart')
